@@ -9,16 +9,30 @@ for d in sorted(glob.glob(os.path.join(HERE, "seeded", "*"))):
         continue
     m = json.load(open(mp))
     e = m.get("evaluation", {})
-    what = m.get("summary") or m.get("what") or m.get("description") or m.get("title") or ""
+    what = m.get("what_it_breaks") or m.get("summary") or m.get("what") or m.get("description") or m.get("title") or ""
     if isinstance(what, list):
         what = " ".join(what)
-    files = m.get("files") or m.get("file") or ""
+    files = m.get("files_changed") or m.get("files") or m.get("file") or ""
     if isinstance(files, list):
         files = ", ".join(files)
     rows.append((os.path.basename(d), e.get("property", ""), str(files)[:60], str(what).replace("\n", " ").replace("|", "/")[:260],
                  "yes" if e.get("confirmed") else "no", "DETECTED" if e.get("detected") else "missed",
                  "; ".join(sorted({l.split("replay=")[1].split("/")[-1].split()[0] for l in e.get("check_lines", []) if "replay=" in l}))[:80]))
-print("| seed | property | change (as described by its author) | own demo confirmed | our check | replay |")
-print("|---|---|---|---|---|---|")
+import sys
+lines = []
+def out(x):
+    lines.append(x)
+out("| seed | property | change (as described by its author) | own demo confirmed | our check | replay |")
+out("|---|---|---|---|---|---|")
 for r in rows:
-    print("| %s | %s | %s %s | %s | %s | %s |" % (r[0], r[1], ("`%s`: " % r[2]) if r[2] else "", r[3], r[4], r[5], r[6]))
+    out("| %s | %s | %s %s | %s | %s | %s |" % (r[0], r[1], ("`%s`: " % r[2]) if r[2] else "", r[3], r[4], r[5], r[6]))
+out("")
+out("%d seeded changes, %d detected." % (len(rows), sum(1 for r in rows if r[5] == "DETECTED")))
+if "--update" in sys.argv:
+    dp = os.path.join(HERE, "DESIGN.md")
+    d = open(dp).read()
+    a, b = d.index("<!-- SEEDTABLE BEGIN -->"), d.index("<!-- SEEDTABLE END -->")
+    d = d[:a] + "<!-- SEEDTABLE BEGIN -->\n" + "\n".join(lines) + "\n" + d[b:]
+    open(dp, "w").write(d)
+else:
+    print("\n".join(lines))
